@@ -17,6 +17,13 @@
 (*    call every listener; every Monitor call adds a watch goroutine, a    *)
 (*    reload leaves one per key, so an event is handled `nwatch` times;    *)
 (*  - Registry.Monitor: a later subscriber is first replayed getCurrent;   *)
+(*  - cluster.monitor registers the listener *before* it asks for the      *)
+(*    client and does not take it back when that fails: `listened` = the   *)
+(*    key has a registered listener, which after a failed first attempt is *)
+(*    true although nothing has been loaded and nothing is watched.  Every *)
+(*    successful Monitor call loads and watches; the constant JoinSkip     *)
+(*    switches to a tree that skips both when a listener is registered     *)
+(*    ("the key is already being watched");                                *)
 (*  - container.addKv / doRemoveKey: vals[v] = the keys that published v   *)
 (*    (the code keeps a slice that may list a key twice; removal drops     *)
 (*    every occurrence, so a set is an exact abstraction and keeps the     *)
@@ -26,12 +33,12 @@
 (***************************************************************************)
 EXTENDS Discov
 
-CONSTANT StoreBack
+CONSTANTS StoreBack, JoinSkip
 
-VARIABLES known, hasBase, nwatch, cont
+VARIABLES known, hasBase, nwatch, cont, listened
 
-ivars == <<vars, known, hasBase, nwatch, cont>>
-icore == <<core, known, hasBase, nwatch, cont>>
+ivars == <<vars, known, hasBase, nwatch, cont, listened>>
+icore == <<core, known, hasBase, nwatch, cont, listened>>
 
 EmptyCont == [vals |-> [v \in Vals |-> {}], keyset |-> {}]
 
@@ -76,6 +83,7 @@ IInit ==
   /\ Init
   /\ known = {} /\ hasBase = FALSE /\ nwatch = 0
   /\ cont = [s \in Subs |-> EmptyCont]
+  /\ listened = FALSE
 
 IChange(e) ==
   /\ Change(e)
@@ -84,15 +92,15 @@ IChange(e) ==
             /\ known' = IF nwatch > 0 /\ (e.op = "put" \/ hasBase) THEN ViewApply(known, e) ELSE known
             /\ hasBase' = (hasBase \/ (nwatch > 0 /\ e.op = "put"))
        ELSE UNCHANGED <<cont, known, hasBase>>
-  /\ UNCHANGED nwatch
+  /\ UNCHANGED <<nwatch, listened>>
 
-IDisconnect == Disconnect /\ UNCHANGED <<known, hasBase, nwatch, cont>>
+IDisconnect == Disconnect /\ UNCHANGED <<known, hasBase, nwatch, cont, listened>>
 
 IResume ==
   /\ Resume
   /\ cont' = HandleN(cont, attached, backlog, nwatch)
   /\ known' = KnownApplySeq(known, backlog)
-  /\ UNCHANGED <<hasBase, nwatch>>
+  /\ UNCHANGED <<hasBase, nwatch, listened>>
 
 IReload(mid) ==
   /\ Reload(mid)
@@ -101,21 +109,33 @@ IReload(mid) ==
   /\ known' = KnownApplySeq(BaseAfter(etcd), mid)
   /\ hasBase' = TRUE
   /\ nwatch' = 1
+  /\ UNCHANGED listened
 
 IAttach(s) ==
   /\ Attach(s)
-  /\ \E replay \in Orders(IF attached # {} THEN known ELSE {}), order \in Orders(Adds(etcd)) :
-       LET replayed == FoldLeft(LAMBDA acc, k : OnAdd(acc, {s}, k), cont, replay)
-       IN cont' = AddsThenRemoves(replayed, attached \cup {s}, order, Removes(etcd))
-  /\ known' = BaseAfter(etcd)
-  /\ hasBase' = TRUE
-  /\ nwatch' = nwatch + 1
+  /\ listened' = TRUE
+  /\ IF JoinSkip /\ listened
+       THEN /\ \E replay \in Orders(known) :
+                 cont' = FoldLeft(LAMBDA acc, k : OnAdd(acc, {s}, k), cont, replay)
+            /\ UNCHANGED <<known, hasBase, nwatch>>
+       ELSE /\ \E replay \in Orders(IF attached # {} THEN known ELSE {}), order \in Orders(Adds(etcd)) :
+                 LET replayed == FoldLeft(LAMBDA acc, k : OnAdd(acc, {s}, k), cont, replay)
+                 IN cont' = AddsThenRemoves(replayed, attached \cup {s}, order, Removes(etcd))
+            /\ known' = BaseAfter(etcd)
+            /\ hasBase' = TRUE
+            /\ nwatch' = nwatch + 1
+
+\* the listener of the failed attempt stays registered (its container is never read again)
+IAttachFail(s) ==
+  /\ AttachFail(s)
+  /\ listened' = TRUE
+  /\ UNCHANGED <<known, hasBase, nwatch, cont>>
 
 INext ==
   \/ \E k \in Keys : IChange(Ev("put", k)) \/ (k \in etcd /\ IChange(Ev("del", k)))
   \/ IDisconnect \/ IResume
   \/ \E m \in Mids : IReload(m)
-  \/ \E s \in Subs : IAttach(s)
+  \/ \E s \in Subs : IAttach(s) \/ IAttachFail(s)
 
 ISpec == IInit /\ [][INext]_ivars
 
